@@ -457,7 +457,7 @@ func TestFlagSets(t *testing.T) {
 	}
 	members := flagMembers(decls[ff.name])
 	sort.Slice(members, func(i, j int) bool { return members[i].val < members[j].val })
-	hx.Check(t, test+"Random", hx.N(300, 20000), func(rt *rapid.T) {
+	hx.Check(t, test+"Random", hx.N(300, 200000), func(rt *rapid.T) {
 		idx := make([]int, len(members))
 		for i := range idx {
 			idx[i] = i
